@@ -14,6 +14,14 @@ lean/ALV/Gen/OpTable.lean):
                  table; spec: pointwise reading).  The terms are evaluated with Python's own
                  `operator.*` on the actual leaf elements and compared with what the real expression
                  delivers (values, where it ends, element errors, read counts of counting sources).
+                 The iterable operands are drawn from EVERY iterator flavour the library hands out or accepts
+                 (c01_flavours.py: itertools.repeat(v) / repeat(v, n), count, cycle (also cycle(())), chain, islice, tee,
+                 takewhile, ..., map / filter / zip / enumerate objects, generators, range (with a step), bytes, array,
+                 user iterator / sized / __getitem__ classes, the lazy_itertools wrappers `audiolazy.repeat`, `count`,
+                 `cycle`, `chain`, `imap`, `izip`, ..., Stream(a, b, c), Stream subclasses, tee / thub copies, limit / skip)
+                 on either side of every builder branch, as the shortest / empty / equal / longer / endless operand.
+                 The Lean model needs no change for that: it sees an operand as an iterator over elements; an endless
+                 flavour is described by its first n + 2 elements for an observation of n next() calls.
 * entry "bcast"  the broadcast family (lazy_math, dB, MIDI, erb): container kind, laziness
                  (no read at call time, one read per next), values = function applied per element.
 """
@@ -30,11 +38,16 @@ from common import err_kind
 
 warnings.simplefilter("ignore")      # MemoryLeakWarning of a thub whose copy is never read (call refused)
 from props import c01_t1
+from props import c01_flavours as fl
 
 ID = "C01"
 RULE = ("expr: exhaustive cross 35 dunders x operand kinds x length pairs x call route (direct dunder / operator "
         "syntax) over symbolic tracer elements (non-commutative, so operand order is visible), the same over "
-        "numeric element families, random trees of depth <= 4 (quick) / 6 (thorough), a malformed stream; "
+        "numeric element families; flavour cross: ~120 operand flavours (every itertools / builtin lazy iterator, finite and "
+        "endless, raw, inside a Stream, through the lazy_itertools wrappers, behind Stream subclasses / tee copies) x position "
+        "(other raw, other in a Stream, self, both) x builder branch (binary|rbinary x iterable|scalar, unary) x which operand "
+        "is empty / shortest / endless x one dunder of every operator class (thorough: three), primary flavours x all 35 dunders; "
+        "random trees of depth <= 4 (quick) / 6 (thorough) whose leaves are drawn from the same flavours, a malformed stream; "
         "a case is non-trivial when the real expression delivers at least one item or the broadcast function "
         "is applied to at least one element; distinct = distinct JSON case")
 TRUSTED = [
@@ -44,6 +57,9 @@ TRUSTED = [
     "the interpreter incl. reflected-method priority)",
     "translator T1 harness/props/c01_t1.py (ast templates of _initialize/_insert/__new__; unknown shape = broken obligation)",
     "term evaluator of this module: `operator.<fn>` applied to the actual leaf elements",
+    "harness/props/c01_flavours.py: which python object delivers the elements of a leaf (itertools / builtin iterators, lazy_itertools "
+    "wrappers); an endless operand is shown to the model as its first n + 2 elements for an observation of n next() calls "
+    "(every next() of an operator expression asks each leaf at most once)",
 ]
 MANIFEST = {
     "text": "Lean 4 theorems (structural induction over expression trees of any depth, operands finite / empty / unequal / "
@@ -231,6 +247,8 @@ def dec_val(j):
             return Mat(j["M"])
         if "T" in j:
             return j["T"]           # a text element
+        if "Z" in j:
+            return tuple(dec_val(x) for x in j["Z"])     # a tuple element (what zip / enumerate deliver)
         raise ValueError("unknown element encoding %r" % (j,))
     return j                        # int, bool, float, None
 
@@ -297,10 +315,12 @@ def outcomes(terms, env, n, trace=None):
 #   iterable: "xs" element encodings, "kind" list|tuple|gen|deque|iter|range|str|dictkeys, "tag" (filled by `number`)
 #   stream1 : "ctor" Stream|ControlStream|thub ;   un/bin: "d" dunder, "route" direct|syntax
 # ------------------------------------------------------------------------------------------------
-def number(node, st=None):
-    """ assign atom ids / tags in traversal order; returns (request tree for the driver, env id->element, leaves) """
+def number(node, st=None, n=0):
+    """ assign atom ids / tags in traversal order; returns (request tree for the driver, env id->element, leaves).
+        `n` = number of next() calls of the observation: an endless leaf is described to the driver by its first
+        n + 2 elements (see c01_flavours); a leaf built with a lazy_itertools wrapper is a Stream: stream1(iterable) """
     if st is None:
-        st = {"next": 0, "env": {}, "tags": 0, "leaves": []}
+        st = {"next": 0, "env": {}, "tags": 0, "leaves": [], "n": n}
     k = node["k"]
 
     def fresh(v):
@@ -314,9 +334,11 @@ def number(node, st=None):
     elif k == "iterable":
         tag = st["tags"]
         st["tags"] += 1
-        ids = [fresh(dec_val(x)) for x in node["xs"]]
+        ids = [fresh(dec_val(x)) for x in fl.items(node, st["n"])]
         st["leaves"].append((tag, node.get("kind", "list"), len(ids)))
         r = {"k": k, "tag": tag, "xs": ids}
+        if fl.is_stream_valued(node):
+            r = {"k": "stream1", "a": r}
     elif k == "stream1":
         r = {"k": k, "a": number(node["a"], st)[0]}
     elif k == "stream2":
@@ -340,6 +362,17 @@ class NotImpl(Exception):
     pass
 
 
+_subclass = []
+
+
+def stream_subclass():
+    if not _subclass:
+        class Sub(AL().Stream):
+            """ a user subclass of Stream that changes nothing """
+        _subclass.append(Sub)
+    return _subclass[0]
+
+
 class Unsupported(Exception):
     """ the case cannot be written with the requested route (generator problem, not a finding) """
 
@@ -360,32 +393,22 @@ def build(node, st):
     if k == "iterable":
         tag = st["tags"]
         st["tags"] += 1
+        if fl.is_endless(node):
+            for _ in fl.items(node, st["n"]):
+                fresh(None)
+            vals = [dec_val(x) for x in node["xs"]]          # the description of the endless base
+            return fl.make(node, vals, AL())
         xs = [fresh(st["env"][st["next"]]) for _ in node["xs"]]
-        kind = node.get("kind", "list")
-        if kind == "list":
-            return list(xs)
-        if kind == "tuple":
-            return tuple(xs)
-        if kind == "deque":
-            return deque(xs)
-        if kind == "iter":
-            return iter(xs)
-        if kind == "str":
-            return "".join(xs)
-        if kind == "dictkeys":
-            return dict((x, None) for x in xs)
-        if kind == "range":
-            return range(xs[0], xs[0] + len(xs)) if xs else range(0)
-        if kind == "gen":
+        counter = None
+        if node.get("kind", "list") in fl.COUNTING:
             reads = st["reads"]
             reads[tag] = 0
 
-            def src():
-                for x in xs:
+            def counter(vals):
+                for x in vals:
                     reads[tag] += 1
                     yield x
-            return src()
-        raise ValueError("unknown iterable kind %r" % kind)
+        return fl.make(node, xs, AL(), counter)
     if k == "stream1":
         a = build(node["a"], st)
         ctor = node.get("ctor", "Stream")
@@ -395,6 +418,25 @@ def build(node, st):
             return ControlStream(a)
         if ctor == "thub":
             return thub(a, 1)
+        if ctor == "Sub":                  # a user subclass of Stream
+            return stream_subclass()(a)
+        if ctor == "copy":                 # the tee copy ...
+            return Stream(a).copy()
+        if ctor == "orig":                 # ... and the Stream it was taken from
+            s_ = Stream(a)
+            s_.copy()
+            return s_
+        if ctor == "limit":
+            return Stream(a).limit(10 ** 9)
+        if ctor == "skip0":
+            return Stream(a).skip(0)
+        if ctor == "altee":
+            return AL().tee(Stream(a), 1)[0]
+        if ctor == "thubcopy":
+            h = thub(a, 1)
+            c_ = h.copy()
+            list(it.islice(iter(h), 0))    # use the hub's only copy (no MemoryLeakWarning)
+            return c_
         raise ValueError(ctor)
     if k == "stream2":
         a = build(node["a"], st)
@@ -459,7 +501,7 @@ def is_finite(node):
     if k in ("scalar", "ignored"):
         return False
     if k == "iterable":
-        return True
+        return not fl.is_endless(node)
     if k == "stream1":
         return is_finite(node["a"])
     if k == "stream2":
@@ -476,7 +518,7 @@ def is_finite(node):
 def total_items(node):
     k = node["k"]
     if k == "iterable":
-        return len(node["xs"])
+        return 0 if fl.is_endless(node) else len(node["xs"])
     return sum(total_items(node[c]) for c in ("a", "b", "s", "o") if c in node and isinstance(node[c], dict))
 
 
@@ -503,8 +545,8 @@ def take_n(c):
 # ------------------------------------------------------------------------------------------------
 def impl_expr(c):
     prog = c["prog"]
-    _req, env, leaves = number(prog)
-    st = {"next": 0, "env": env, "tags": 0, "reads": {}}
+    _req, env, leaves = number(prog, n=take_n(c))
+    st = {"next": 0, "env": env, "tags": 0, "reads": {}, "n": take_n(c)}
     try:
         res = build(prog, st)
     except NotImpl:
@@ -564,6 +606,7 @@ def impl_optable(c):
 
 IMPL_SECONDS = 1.0
 _budget = [IMPL_SECONDS]
+_hangs = [0]
 IMPL_BYTES = 6 << 30
 
 
@@ -573,7 +616,9 @@ def impl(c):
     if io.get("err") == "TIMEOUT":
         io = _impl_once(c)
         if io.get("err") == "TIMEOUT":
-            _budget[0] = min(_budget[0], 0.4)     # a real hang exists: do not spend a second on each further one
+            # a real hang exists: do not spend a second on each further one (a regular case needs ~1 ms of CPU)
+            _hangs[0] += 1
+            _budget[0] = min(_budget[0], 0.4 if _hangs[0] < 4 else 0.15 if _hangs[0] < 12 else 0.06)
     return io
 
 
@@ -622,7 +667,7 @@ def _impl_once(c):
 
 def request(c):
     if c["entry"] == "expr":
-        return {"entry": "expr", "prog": number(c["prog"])[0], "n": take_n(c)}
+        return {"entry": "expr", "prog": number(c["prog"], n=take_n(c))[0], "n": take_n(c)}
     if c["entry"] == "bcast":
         return request_bcast(c)
     return {"entry": c["entry"]}
@@ -672,13 +717,12 @@ def render(node):
     if k in ("scalar", "ignored"):
         return repr(dec_val(node["c"])) if k == "scalar" else "Ignored()"
     if k == "iterable":
-        xs = ", ".join(repr(dec_val(x)) for x in node["xs"])
-        kind = node.get("kind", "list")
-        return {"list": "[%s]", "tuple": "tuple([%s])", "gen": "(x for x in [%s])", "deque": "deque([%s])", "iter": "iter([%s])",
-                "str": "''.join([%s])", "dictkeys": "dict.fromkeys([%s])", "range": "range_of([%s])"}[kind] % xs
+        return fl.render(node, lambda x: repr(dec_val(x)))
     if k == "stream1":
         c = node.get("ctor", "Stream")
-        return ("thub(%s, 1)" if c == "thub" else c + "(%s)") % render(node["a"])
+        fmt = {"thub": "thub(%s, 1)", "copy": "Stream(%s).copy()", "orig": "copied_from(Stream(%s))", "limit": "Stream(%s).limit(10**9)",
+               "skip0": "Stream(%s).skip(0)", "altee": "audiolazy.tee(Stream(%s), 1)[0]", "thubcopy": "thub(%s, 1).copy()"}
+        return fmt.get(c, c + "(%s)") % render(node["a"])
     if k == "stream2":
         return "Stream(%s, %s)" % (render(node["a"]), render(node["b"]))
     if k == "un":
@@ -716,7 +760,7 @@ def compare_expr(c, io, drv):
 
 
 def _compare_expr(c, io, drv):
-    _req, env, leaves = number(c["prog"])
+    _req, env, leaves = number(c["prog"], n=take_n(c))
     if str(io.get("err", "")).startswith("UNSUPPORTED") or str(io.get("err", "")).startswith("UNMAPPED"):
         return [("model", "harness problem: " + io["err"] + " " + io.get("trace", ""))]
     out = []
@@ -801,11 +845,18 @@ def stream_of(node, ctor="Stream"):
     return {"k": "stream1", "ctor": ctor, "a": node}
 
 
+SUBCLASS_CTORS = ("ControlStream", "thub", "Sub")        # stream1 ctors whose value is an instance of a proper subclass of Stream
+PLAIN_CTORS = ("Stream", "copy", "orig", "limit", "skip0", "altee", "thubcopy")
+
+
 def pyclass(node):
     """ python class of the value of a Stream-valued node (ControlStream.map/append/abs return self) """
     k = node["k"]
+    if k == "iterable":
+        return "Stream" if fl.is_stream_valued(node) else None
     if k == "stream1":
-        return node.get("ctor", "Stream")
+        c = node.get("ctor", "Stream")
+        return c if c in SUBCLASS_CTORS else "Stream"
     if k == "append" or (k == "meth" and (node["l"] == "abs" or node["l"].startswith("map:"))):
         return "ControlStream" if pyclass(node["s"]) == "ControlStream" else "Stream"
     if k in ("stream2", "un", "bin", "meth"):
@@ -824,7 +875,11 @@ def fix_routes(node):
         if ch in q and isinstance(q[ch], dict):
             q[ch] = fix_routes(q[ch])
     if q["k"] == "bin" and q.get("route") == "syntax" and base_of(q["d"])[0] in CMP:
-        if pyclass(q["s"]) == "Stream" and pyclass(q["o"]) in ("ControlStream", "thub"):
+        if pyclass(q["s"]) == "Stream" and pyclass(q["o"]) in SUBCLASS_CTORS:
+            q["route"] = "direct"
+    if q["k"] == "bin" and q.get("route", "direct") != "direct" and base_of(q["d"])[0] is not None:
+        # (after a shrinking step changed an operand) a route python's dispatch does not take for these operands
+        if q["route"] not in routes_for_nodes(q["d"], q["s"], q["o"]):
             q["route"] = "direct"
     return q
 
@@ -957,6 +1012,296 @@ def cross_cases(tier):
     return cases
 
 
+# ------------------------------------------------------------------------------------------------
+# operand flavours: every iterator kind the library hands out or accepts, on either side of every builder branch
+# ------------------------------------------------------------------------------------------------
+class _Probe(object):
+    """ stands for a Stream in a question about PYTHON's dispatch only (never about the library): does
+        `other <op> x` end in x's reflected method (resp. the mirrored comparison) when other's type refuses? """
+    def __iter__(self):
+        return iter(())
+
+
+class _Hit(object):
+    pass
+
+
+for _n in ARITH:
+    setattr(_Probe, "__r%s__" % _n, lambda self, other, *_: _Hit)
+for _n in CMP:
+    setattr(_Probe, "__%s__" % _n, lambda self, other: _Hit)
+
+_dispatch_cache = {}
+
+
+def syntax_reaches(node, base, swapped):
+    """ `other <base> s` (reflected dunder) / `other <SWAP[base]> s` (swapped comparison) with `other` = this raw leaf:
+        does python call the Stream's method?  (no: UserList.__add__ concatenates, bytes.__mod__ formats, ...) """
+    key = (node.get("kind", "list"), node.get("inf"), base, swapped)
+    if key not in _dispatch_cache:
+        sample = dict(node)
+        if not fl.is_endless(node):
+            sample["xs"] = node["xs"][:1]
+        try:
+            o = fl.make(sample, [dec_val(x) for x in sample["xs"]], None)
+            fn = getattr(operator, "__%s__" % (SWAP[base] if swapped else base))
+            _dispatch_cache[key] = fn(o, _Probe()) is _Hit
+        except Exception:
+            _dispatch_cache[key] = False
+    return _dispatch_cache[key]
+
+
+def routes_for_nodes(d, s_node, o_node):
+    """ routes_for, from the operand nodes themselves """
+    base, refl = base_of(d)
+    rs = ["direct"]
+    if base in UNARY:
+        return rs + ["syntax"]
+    ocls = pyclass(o_node) if o_node["k"] != "scalar" else None
+    o_raw = o_node["k"] == "iterable" and ocls is None
+    if not refl:
+        if not (base in CMP and ocls in SUBCLASS_CTORS and pyclass(s_node) == "Stream"):
+            rs.append("syntax")
+        if base in CMP and (o_node["k"] == "scalar" or (o_raw and syntax_reaches(o_node, base, True))):
+            rs.append("swapped")
+    elif o_node["k"] == "scalar" or (o_raw and syntax_reaches(o_node, base, False)):
+        rs.append("syntax")
+    return rs
+
+
+OP_CLASSES = {}
+for _d in BIN_DUNDERS:
+    _b, _r = base_of(_d)
+    OP_CLASSES.setdefault(("reflected-" if _r else "") + ("comparison" if _b in CMP else "bitwise-shift" if _b in
+                          ("and", "or", "xor", "rshift", "lshift") else "arithmetic"), []).append(_d)
+TUP_DUNDERS = {"arithmetic": ["__add__"], "reflected-arithmetic": ["__radd__"], "comparison": ["__%s__" % n for n in CMP]}
+WRAP_CTORS = ["Stream", "thub", "Sub", "copy", "orig", "limit", "skip0", "altee", "thubcopy"]
+
+
+def flavour_elems(con, m, p="b"):
+    """ m elements obeying the flavour's constraint """
+    if con == "same":
+        return [{"S": p}] * m
+    if con == "ints":
+        return list(range(5, 5 + m))
+    if con == "ap":
+        return list(range(9, 9 - 2 * m, -2))
+    if con == "bytes":
+        return [7, 3, 12, 5, 9, 200][:m]
+    if con == "text":
+        return [{"T": ch} for ch in "xyzwvu"[:m]]
+    if con == "hash":
+        return list(range(10, 10 + m))
+    if con == "tup":
+        return [{"Z": [{"S": "%s%d" % (p, i)}]} for i in range(m)]
+    if con == "enum":
+        return [{"Z": [4 + i, {"S": "%s%d" % (p, i)}]} for i in range(m)]
+    if con == "none":
+        return []
+    return sym_vals(p, m)
+
+
+def all_flavours():
+    """ (leaf template without elements, constraint) of every flavour """
+    out = []
+    for kind, con in fl.FINITE_KINDS.items():
+        out.append(({"k": "iterable", "kind": kind}, con))
+        if kind in fl.AL_FINITE:
+            out.append(({"k": "iterable", "kind": kind, "al": True}, con))
+    for base in fl.INF_BASES:
+        con = {"repeat": "same", "count": "ints", "cycle": "any"}[base]
+        for kind in fl.INF_KINDS:
+            out.append(({"k": "iterable", "kind": kind, "inf": base}, con))
+        for kind in fl.AL_INF:
+            if kind == "streamN" and base == "count":
+                continue
+            out.append(({"k": "iterable", "kind": kind, "inf": base, "al": True}, con))
+    return out
+
+
+_FLAVOURS = all_flavours()
+
+
+def inf_desc(base, rng):
+    if base == "repeat":
+        return [{"S": "r"}]
+    if base == "count":
+        return [rng.choice([0, 3, -2])] + ([rng.choice([2, -1, 3])] if rng.random() < 0.4 else [])
+    return sym_vals("p", rng.choice([1, 2, 3]))
+
+
+def as_stream(leaf_node, ctor="Stream"):
+    """ a Stream-valued node over the leaf """
+    if fl.is_stream_valued(leaf_node) and ctor == "Stream":
+        return leaf_node
+    return stream_of(leaf_node, ctor)
+
+
+def flavour_cross(rng, tier):
+    """ every flavour x position (other raw / other inside a Stream / self / self behind a wrapper ctor) x builder branch
+        (binary|rbinary x iterable|scalar, unary) x length relation (the flavoured operand empty / shortest / equal /
+        longer / endless against a finite, an empty and an endless partner) x one dunder of every operator class
+        (thorough: three), routes chosen among those python's dispatch really takes """
+    cases = []
+    per_class = 1 if tier == "quick" else 3
+    LEN_PAIRS = [(0, 3, "special-empty"), (1, 3, "special-shortest"), (2, 4, "special-shortest"), (3, 3, "equal"),
+                 (4, 2, "partner-shortest"), (3, 0, "partner-empty"), (0, 0, "both-empty")]
+
+    def dunders(con, classes=None):
+        tbl = TUP_DUNDERS if con in ("tup", "enum") else OP_CLASSES
+        out = []
+        for cl in sorted(tbl):
+            if classes is None or cl in classes:
+                out += rng.sample(tbl[cl], min(per_class, len(tbl[cl])))
+        return out
+
+    def partner_elems(con, m, p="a"):
+        return flavour_elems("tup", m, p) if con in ("tup", "enum") else sym_vals(p, m)
+
+    def partner_scalar(con):
+        return 2 if con in ("tup", "enum") else {"S": "c"}        # (a tuple would be an iterable operand)
+
+    def endless_partner(con):
+        """ an endless Stream of elements the flavour's elements can be combined with """
+        if con in ("tup", "enum"):
+            return stream_of({"k": "iterable", "kind": "raw", "inf": "repeat", "xs": [{"Z": [{"S": "c"}]}]})
+        return stream_of({"k": "scalar", "c": {"S": "c"}})
+
+    def emit(prog, flav, pos, rel, n=None):
+        # the route: any of those that reach this dunder
+        if prog["k"] == "bin":
+            prog = dict(prog, route=rng.choice(routes_for_nodes(prog["d"], prog["s"], prog["o"])))
+        else:
+            prog = dict(prog, route=rng.choice(["direct", "syntax"]))
+        kw = {"n": n} if n is not None else {}
+        cases.append(expr_case(prog, fam="flavour", okind=flav, pos=pos, rel=rel, **kw))
+
+    for tmpl, con in all_flavours():
+        endless = fl.is_endless(tmpl)
+        streamy = fl.is_stream_valued(tmpl)
+
+        def F(m, p="b"):
+            q = dict(tmpl)
+            if endless:
+                q["xs"] = inf_desc(tmpl["inf"], rng)
+            else:
+                q["xs"] = flavour_elems(con, m, p)
+            return q
+        flav = fl.flavour_name(tmpl)
+        if con == "none":
+            pairs = [(0, 3, "special-empty"), (0, 0, "both-empty")]
+        elif endless:
+            pairs = [(None, 0, "partner-empty"), (None, 1, "partner-shortest"), (None, 3, "partner-shortest")]
+        else:
+            pairs = LEN_PAIRS
+        wrap = [c for c in WRAP_CTORS if c != "Stream"]
+        rng.shuffle(wrap)
+        wi = [0]
+
+        def next_wrap():
+            wi[0] += 1
+            return wrap[wi[0] % len(wrap)]
+        # --- the flavour is the OTHER operand --------------------------------------------------------------
+        for (mf, mp, rel) in pairs:
+            for d in dunders(con):
+                s = stream_of(leaf(rng.choice(["list", "gen"]), partner_elems(con, mp)))
+                emit({"k": "bin", "d": d, "s": s, "o": F(mf)}, flav, "other:stream" if streamy else "other:raw", rel)
+                c = next_wrap() if rng.random() < 0.5 or streamy else "Stream"
+                emit({"k": "bin", "d": d, "s": s, "o": stream_of(F(mf), c)}, flav, "other:" + c + "(..)", rel)
+        # an endless self against it (bounded take): the flavoured operand alone decides where the result ends
+        for mf in ([None] if endless else [0] if con == "none" else [0, 1, 2]):
+            for d in dunders(con):
+                e = rng.choice(["rep", "cycle", "count"]) if con not in ("tup", "enum") else "rep"
+                s = {"rep": endless_partner(con),
+                     "cycle": {"k": "stream2", "a": {"k": "scalar", "c": {"S": "c"}}, "b": {"k": "scalar", "c": {"S": "e"}}},
+                     "count": stream_of({"k": "iterable", "kind": "raw", "inf": "count", "xs": [2]})}[e]
+                rel = "both-endless" if endless else "special-empty" if mf == 0 else "special-shortest"
+                o = F(mf) if rng.random() < 0.5 else stream_of(F(mf), rng.choice(["Stream", next_wrap()]))
+                pos = "other:raw" if o["k"] == "iterable" and not streamy else "other:stream"
+                emit({"k": "bin", "d": d, "s": s, "o": o}, flav, pos + "/self-endless", rel, n=rng.choice([3, 6]))
+        # --- the flavour is SELF ----------------------------------------------------------------------------
+        for (mf, mp, rel) in pairs:
+            for d in dunders(con):
+                ctor = "Stream" if rng.random() < 0.6 else next_wrap()
+                s = as_stream(F(mf, "a"), ctor)
+                okind = rng.choice(["list", "tuple", "gen", "Stream", "Stream", "thub"])
+                o = other_operand(okind, partner_elems(con, mp, "b"), None)
+                emit({"k": "bin", "d": d, "s": s, "o": o}, flav, "self:" + ctor, rel)
+        for mf in ([None] if endless else [0] if con == "none" else [0, 1, 3]):
+            ctor = "Stream" if rng.random() < 0.6 else next_wrap()
+            rel = "n/a"
+            # scalar branches
+            for d in (rng.sample(["__mul__", "__rmul__", "__eq__", "__ne__"], 2 * per_class if per_class == 1 else 4)
+                      if con in ("tup", "enum") else dunders(con)):
+                emit({"k": "bin", "d": d, "s": as_stream(F(mf, "a"), ctor), "o": {"k": "scalar", "c": partner_scalar(con)}},
+                     flav, "self:" + ctor, rel, n=5 if endless else None)
+            # an endless iterable partner: the flavoured self decides where the result ends
+            for d in dunders(con):
+                o = rng.choice([endless_partner(con),
+                                {"k": "iterable", "kind": "raw", "inf": "repeat", "xs": [partner_elems(con, 1, "c")[0]]},
+                                {"k": "iterable", "kind": "raw", "inf": "cycle", "xs": partner_elems(con, 2, "q"), "al": True}])
+                emit({"k": "bin", "d": d, "s": as_stream(F(mf, "a"), ctor), "o": o}, flav, "self:" + ctor + "/other-endless",
+                     "both-endless" if endless else "special-empty" if mf == 0 else "special-shortest", n=rng.choice([4, 7]))
+            # unary
+            if con not in ("tup", "enum", "text"):
+                for d in rng.sample(UN_DUNDERS, per_class):
+                    emit({"k": "un", "d": d, "s": as_stream(F(mf, "a"), ctor)}, flav, "self:" + ctor, rel, n=5 if endless else None)
+        # --- the same flavour on both sides ---------------------------------------------------------------
+        if con != "none":
+            for (ma, mb) in ([(None, None)] if endless else [(1, 3), (3, 1), (2, 2)]):
+                for d in dunders(con, ("arithmetic", "reflected-arithmetic", "comparison")):
+                    o = F(mb, "b") if rng.random() < 0.5 else as_stream(F(mb, "b"))
+                    emit({"k": "bin", "d": d, "s": as_stream(F(ma, "a")), "o": o}, flav, "both",
+                         "both-endless" if endless else "special-shortest" if ma != mb else "equal", n=4 if endless else None)
+    return cases
+
+
+PRIMARY_FLAVOURS = [
+    {"kind": "repeat_n"}, {"kind": "range"}, {"kind": "range_step"}, {"kind": "map"}, {"kind": "filter"}, {"kind": "chain"}, {"kind": "islice"}, {"kind": "tee"},
+    {"kind": "iterclass"}, {"kind": "bytes"}, {"kind": "genexp"}, {"kind": "reversed"}, {"kind": "sizedclass"},
+    {"kind": "raw", "inf": "repeat"}, {"kind": "raw", "inf": "count"}, {"kind": "raw", "inf": "cycle"}, {"kind": "map", "inf": "count"},
+    {"kind": "gen", "inf": "cycle"}, {"kind": "streamN", "inf": "cycle", "al": True},
+    {"kind": "repeat_n", "al": True}, {"kind": "raw", "inf": "repeat", "al": True}, {"kind": "raw", "inf": "count", "al": True},
+    {"kind": "raw", "inf": "cycle", "al": True}, {"kind": "chain", "al": True}, {"kind": "islice", "al": True}, {"kind": "map", "al": True},
+    {"kind": "tee", "al": True},
+]
+
+
+def primary_cross(rng):
+    """ the flavours a fast path is most likely written for x EVERY dunder x (other raw, other in a Stream, self with an
+        iterable partner, self with a scalar) — a special case may be tied to one operator function (count() + k) """
+    cases = []
+    for t in PRIMARY_FLAVOURS:
+        tmpl = dict(t, k="iterable")
+        con = fl.constraint(tmpl)
+        endless = fl.is_endless(tmpl)
+        flav = fl.flavour_name(tmpl)
+
+        def F(p):
+            q = dict(tmpl)
+            q["xs"] = ({"repeat": [{"S": p}], "count": [3, 2], "cycle": sym_vals(p, 2)}[tmpl["inf"]] if endless
+                       else flavour_elems(con, 2, p))
+            return q
+
+        def emit(prog, pos, rel):
+            if prog["k"] == "bin":
+                prog = dict(prog, route=rng.choice(routes_for_nodes(prog["d"], prog["s"], prog["o"])))
+            cases.append(expr_case(prog, fam="flavour", okind=flav, pos=pos, rel=rel, n=4))
+        rel = "partner-shortest" if endless else "special-shortest"
+        for d in BIN_DUNDERS:
+            part = stream_of(leaf("list", sym_vals("a", 3)))
+            emit({"k": "bin", "d": d, "s": part, "o": F("b")}, "other:stream" if tmpl.get("al") else "other:raw", rel)
+            c = rng.choice(WRAP_CTORS)
+            emit({"k": "bin", "d": d, "s": part, "o": stream_of(F("b"), c)}, "other:" + c + "(..)", rel)
+            emit({"k": "bin", "d": d, "s": as_stream(F("a")), "o": rng.choice([leaf("list", sym_vals("b", 3)), part])}, "self:Stream", rel)
+            emit({"k": "bin", "d": d, "s": as_stream(F("a")), "o": {"k": "scalar", "c": {"S": "c"}}}, "self:Stream", "n/a")
+            if con in ("ints", "bytes", "ap") and base_of(d)[0] not in ("pow", "lshift", "matmul"):
+                emit({"k": "bin", "d": d, "s": as_stream(F("a")), "o": {"k": "scalar", "c": 3}}, "self:Stream", "n/a")
+        for d in UN_DUNDERS:
+            emit({"k": "un", "d": d, "route": rng.choice(["direct", "syntax"]), "s": as_stream(F("a"))}, "self:Stream", "n/a")
+    return cases
+
+
 def malformed_cases():
     cs = []
     s = lambda: stream_of(leaf("list", sym_vals("a", 2)))
@@ -992,9 +1337,35 @@ def rand_tree(rng, d, fam):
     def scalar():
         return {"S": "k%d" % rng.randint(0, 9)} if fam == "sym" else rng.choice([-2, -1, 0, 1, 2, 3])
 
+    def flavoured(m, p, want_stream):
+        """ a leaf of a random flavour (finite with m elements, or endless) """
+        while True:
+            tmpl, con = rng.choice(_FLAVOURS)
+            if con in ("any", "same", "none") or (con == "ints" and (fam == "int" or rng.random() < 0.3)):
+                break
+        q = dict(tmpl)
+        if fl.is_endless(q):
+            q["xs"] = inf_desc(q["inf"], rng)
+            if fam != "sym" and q["inf"] != "count":
+                q["xs"] = [rng.choice([-3, -1, 0, 2, 5]) for _ in q["xs"]]
+        elif con == "same":
+            q["xs"] = vals(1, p) * m
+        elif con == "ints":
+            a = rng.randint(-2, 6)
+            q["xs"] = list(range(a, a + m))
+        elif con == "none":
+            q["xs"] = []
+        else:
+            q["xs"] = vals(m, p)
+        if want_stream:
+            return as_stream(q, rng.choice(["Stream", "Stream"] + WRAP_CTORS))
+        return q
+
     def stream_leaf():
         r = rng.random()
         n = rng.choice([0, 1, 2, 3, 4, 5, 6, 2, 3, 4, 5, 6, 3, 4, 5, 6])
+        if rng.random() < 0.3:
+            return flavoured(n, "f", True)
         if r < 0.55:
             return stream_of(leaf(rng.choice(["list", "gen", "tuple", "iter", "deque"]), vals(n, "s")))
         if r < 0.65:
@@ -1031,11 +1402,13 @@ def rand_tree(rng, d, fam):
             okind = o["ctor"]
     elif q < 0.7:
         o, okind = {"k": "scalar", "c": scalar()}, "scalar"
-    else:
+    elif q < 0.85:
         okind = rng.choice(["list", "tuple", "gen", "deque", "iter"])
         o = leaf(okind, vals(rng.choice([0, 1, 2, 3, 4, 5]), "o"))
-    route = rng.choice(routes_for(dn, okind))
-    return {"k": "bin", "d": dn, "route": route, "s": rand_tree(rng, d - 1, fam), "o": o}
+    else:
+        o = flavoured(rng.choice([0, 1, 2, 3, 4, 5]), "g", False)
+    s_ = rand_tree(rng, d - 1, fam)
+    return {"k": "bin", "d": dn, "route": rng.choice(routes_for_nodes(dn, s_, o)), "s": s_, "o": o}
 
 
 def generate(rng, tier, scale=1):
@@ -1044,6 +1417,8 @@ def generate(rng, tier, scale=1):
         cases.append({"entry": "optable"})
         cases += cross_cases(tier)
         cases += malformed_cases()
+        cases += flavour_cross(rng, tier)
+        cases += primary_cross(rng)
     ntree = (300 if tier == "quick" else 5000) * scale
     maxd = 4 if tier == "quick" else 6
     for i in range(ntree):
@@ -1085,12 +1460,39 @@ def tally(eng, c, io):
                 else:
                     eng.count("builder_branch", "unary")
             if nd["k"] == "iterable":
-                eng.count("leaf_kind", nd.get("kind", "list"))
-                eng.count("leaf_len", len(nd["xs"]))
+                eng.count("leaf_kind", fl.flavour_name(nd))
+                eng.count("leaf_len", "endless" if fl.is_endless(nd) else len(nd["xs"]))
             if nd["k"] == "stream1":
                 eng.count("stream_ctor", nd.get("ctor", "Stream"))
             if nd["k"] in ("stream2", "meth", "append"):
                 eng.count("other_nodes", nd["k"] + (":" + nd["l"] if nd["k"] == "meth" else ""))
+        if c.get("fam") == "flavour":
+            root = p
+            if root["k"] == "bin":
+                base, refl = base_of(root["d"])
+                branch = ("rbinary" if refl else "binary") + "/" + ("scalar" if root["o"]["k"] == "scalar" else "iterable")
+            else:
+                branch = "unary"
+            c = dict({"okind": "?", "pos": "?", "rel": "?"}, **c)
+            eng.count("flavour_x_branch_x_shortest", "%s | %s | %s | %s" % (
+                c["okind"], "self" if c["pos"].startswith("self") else "both" if c["pos"] == "both" else "other", branch, c["rel"]))
+            eng.count("flavour", c["okind"])
+            eng.count("flavour_position_x_branch", "%s | %s" % (c["pos"].split("(")[0].split("/")[0].split(":")[0] + (
+                ":wrapped" if c["pos"].split("/")[0] not in ("other:raw", "other:stream", "self:Stream", "both") else
+                ":" + c["pos"].split("/")[0].split(":")[-1] if ":" in c["pos"] else ""), branch))
+            eng.count("flavour_shortest_x_branch", "%s | %s" % (c["rel"], branch))
+            eng.count("flavour_opclass_x_shortest", "%s | %s" % (_op_class(root["d"]), c["rel"]))
+        else:
+            for nd in nodes(p):
+                if nd["k"] == "bin":
+                    for side in ("s", "o"):
+                        lf = nd[side]
+                        while lf["k"] == "stream1":
+                            lf = lf["a"]
+                        if lf["k"] == "iterable" and lf.get("kind", "list") not in ("list", "gen", "tuple", "iter", "deque"):
+                            base, refl = base_of(nd["d"])
+                            eng.count("tree_flavoured_operand", "%s | %s | %s" % (
+                                fl.flavour_name(lf), "self" if side == "s" else "other", "rbinary" if refl else "binary"))
         if "err" in io:
             eng.count("impl_refusal", io["err"] + ("/" + c["bad"] if "bad" in c else ""))
         else:
@@ -1100,8 +1502,10 @@ def tally(eng, c, io):
                 eng.count("counting_sources_checked", len(io["reads"]))
             if p["k"] == "bin" and p["s"]["k"] == "stream1" and p["s"]["a"]["k"] == "iterable" and \
                     (p["o"]["k"] == "iterable" or (p["o"]["k"] == "stream1" and p["o"]["a"]["k"] == "iterable")):
-                ls = len(p["s"]["a"]["xs"])
-                lo = len(p["o"]["xs"]) if p["o"]["k"] == "iterable" else len(p["o"]["a"]["xs"])
+                inf_ = float("inf")
+                ls = inf_ if fl.is_endless(p["s"]["a"]) else len(p["s"]["a"]["xs"])
+                on = p["o"] if p["o"]["k"] == "iterable" else p["o"]["a"]
+                lo = inf_ if fl.is_endless(on) else len(on["xs"])
                 eng.count("length_relation", "self<other" if ls < lo else "self>other" if ls > lo else "equal" if ls else "both-empty")
     elif c["entry"] == "bcast":
         tally_bcast(eng, c, io)
@@ -1115,7 +1519,9 @@ def shrink(c):
     if c["entry"] != "expr":
         return
     p = c["prog"]
-    keep = dict((k, v) for k, v in c.items() if k not in ("prog", "finite", "n"))
+    keep = dict((k, v) for k, v in c.items() if k not in ("prog", "finite", "n", "pos", "rel"))
+    if c.get("fam") == "flavour":
+        keep["fam"], keep["okind"] = "flavour-shrunk", "shrunk:" + str(c.get("okind", "?")).split(":")[-1]
 
     def mk(q):
         return expr_case(q, n=c.get("n", 12), **keep)
@@ -1141,14 +1547,37 @@ def shrink(c):
 def _shrink_node(nd):
     k = nd["k"]
     if k == "iterable":
-        if nd["xs"]:
+        plain = dict((a, b) for a, b in nd.items() if a != "al")
+        if fl.is_endless(nd):
+            # a simpler description, a simpler wrapper, no lazy_itertools wrapper, a finite operand instead
+            if nd["inf"] == "cycle" and len(nd["xs"]) > (2 if nd.get("kind") == "streamN" else 1):
+                yield dict(nd, xs=nd["xs"][:-1])
+            if nd["inf"] == "count" and len(nd["xs"]) > 1:
+                yield dict(nd, xs=nd["xs"][:1])
+            if nd["inf"] == "count" and nd["xs"][0] != 0:
+                yield dict(nd, xs=[0] + nd["xs"][1:])
+            if nd.get("kind") not in ("raw", "streamN"):
+                yield dict(nd, kind="raw")
+            if nd.get("al") and nd.get("kind") != "streamN":
+                yield {"k": "stream1", "ctor": "Stream", "a": plain}
+            fin = {"k": "iterable", "kind": "list", "xs": fl.items(nd, 1)}
+            yield {"k": "stream1", "ctor": "Stream", "a": fin} if nd.get("al") else fin
+            return
+        if nd["xs"] and not (nd.get("kind") == "range_step" and len(nd["xs"]) == 2):    # (one element does not tell the step)
             yield dict(nd, xs=nd["xs"][:-1])
             yield dict(nd, xs=nd["xs"][1:])
-        if nd.get("kind", "list") != "list":
+        if nd.get("al"):
+            yield {"k": "stream1", "ctor": "Stream", "a": plain}
+            yield {"k": "stream1", "ctor": "Stream", "a": dict(plain, kind="list")}
+        elif nd.get("kind", "list") != "list":
             yield dict(nd, kind="list")
         return
-    if k == "stream1" and nd.get("ctor", "Stream") != "Stream" and nd["ctor"] == "thub":
+    if k == "stream1" and nd.get("ctor", "Stream") == "thub":
         yield nd["a"]
+    if k == "stream1" and nd.get("ctor", "Stream") != "Stream":
+        yield dict(nd, ctor="Stream")
+    if k == "stream1" and nd.get("ctor", "Stream") == "Stream" and pyclass(nd["a"]) == "Stream":
+        yield nd["a"]                       # Stream(Stream(x)) -> Stream(x)
     for ch in ("s", "o", "a", "b"):
         if ch in nd and isinstance(nd[ch], dict):
             if nd[ch]["k"] in ("stream1", "stream2", "un", "bin", "meth", "append") and k in ("un", "bin", "meth", "append") and ch == "s":
@@ -1265,7 +1694,8 @@ for _k, (_dn, _dp) in TRACE_DECOS.items():
     BFUNCS[_k] = (_dn, _dp, "sym", 0, False)
 
 SIZED = ["list", "tuple", "deque", "set", "frozenset"]
-LAZY = ["generator", "range", "map", "filter", "zip", "zip_longest", "enumerate"]
+INF_LAZY = ["generator_inf", "map_inf", "filter_inf"]      # the same lazy kinds over an ENDLESS source (itertools.repeat)
+LAZY = ["generator", "range", "map", "filter", "zip", "zip_longest", "enumerate"] + INF_LAZY
 STREAMS = ["stream", "thub", "ControlStream"]
 ALL_KINDS = ["scalar", "str"] + SIZED + LAZY + STREAMS
 TUPLE_ITEM_KINDS = ("zip", "zip_longest", "enumerate")
@@ -1342,7 +1772,7 @@ def bcast_items(c):
         return vals, [(v,) for v in vals]
     if k == "enumerate":
         return vals, list(enumerate(vals))
-    if k in ("scalar", "str", "ControlStream"):
+    if k in ("scalar", "str", "ControlStream") or k in INF_LAZY:
         vals = vals[:1]
     return vals, vals
 
@@ -1370,12 +1800,12 @@ def bcast_layout(c):
     _raw, items = bcast_items(c)
     ids = [fresh(v) for v in items]
     k = c["kind"]
-    lean_kind = {"thub": "streamSub", "ControlStream": "streamSub"}.get(k, k)
+    lean_kind = {"thub": "streamSub", "ControlStream": "streamSub"}.get(k, k[:-4] if k in INF_LAZY else k)
     if k in ("scalar", "str"):
         arg = {"c": "obj", "kind": lean_kind, "self": ids[0]}
     elif k in SIZED:
         arg = {"c": "sized", "kind": lean_kind, "tag": 0, "xs": ids}
-    elif k == "ControlStream":
+    elif k == "ControlStream" or k in INF_LAZY:
         arg = {"c": "lazy", "kind": lean_kind, "rep": ids[0]}
     else:
         arg = {"c": "lazy", "kind": lean_kind, "tag": 0, "xs": ids}
@@ -1435,6 +1865,12 @@ def impl_bcast(c):
         arg = thub(Stream(src()), 1)
     elif k == "ControlStream":
         arg, counting = ControlStream(raw[0]), False
+    elif k == "generator_inf":
+        arg, counting = (v for v in it.repeat(raw[0])), False
+    elif k == "map_inf":
+        arg, counting = map(lambda v: v, it.repeat(raw[0])), False
+    elif k == "filter_inf":
+        arg, counting = filter(lambda v: True, it.repeat(raw[0])), False
     else:
         raise ValueError(k)
     if k in ("set", "frozenset") and list(arg) != items:
@@ -1666,7 +2102,7 @@ def generate_bcast(rng, tier, scale):
         kind = rng.choice([k for k in ALL_KINDS if not (composite and k in TUPLE_ITEM_KINDS)])
         base = POOLS[pool]
         m = rng.choice([0, 1, 2, 3, 5, 8])
-        vals = [rng.choice(base) for _ in range(m)] or ([] if kind not in ("scalar", "str", "ControlStream") else base[:1])
+        vals = [rng.choice(base) for _ in range(m)] or ([] if kind not in ("scalar", "str", "ControlStream") + tuple(INF_LAZY) else base[:1])
         if kind == "str" and pool != "note":
             vals = [{"T": rng.choice(["abc", "", "x"])}]
         if kind in ("set", "frozenset"):
@@ -1694,7 +2130,9 @@ def tally_bcast(eng, c, io):
 
 
 def shrink_bcast(c):
-    if c["xs"] and c["kind"] not in ("scalar", "str", "ControlStream"):
+    if len(c["xs"]) > 1 and c["kind"] in INF_LAZY:
+        yield dict(c, xs=c["xs"][:1])
+    if c["xs"] and c["kind"] not in ("scalar", "str", "ControlStream") + tuple(INF_LAZY):
         yield dict(c, xs=c["xs"][:-1])
         yield dict(c, xs=c["xs"][1:])
     for k in ("before", "after", "kwargs"):
@@ -1708,7 +2146,7 @@ def neighbours_bcast(c):
     for kind in ALL_KINDS:
         if kind != c["kind"] and not (BFUNCS[c["func"]][4] and kind in TUPLE_ITEM_KINDS):
             xs = c["xs"] if kind != "str" or BFUNCS[c["func"]][2] == "note" else [{"T": "abc"}]
-            if kind in ("scalar", "ControlStream") and not xs:
+            if (kind in ("scalar", "ControlStream") or kind in INF_LAZY) and not xs:
                 continue
             yield dict(c, kind=kind, xs=xs)
     for fn in ("sin", "trace.x0", "log", "midi2str"):
